@@ -53,12 +53,20 @@ Definition col_cands (c : column) (v : goval) : list dval :=
    norm_value (base_ty (c_ty c)) (valuer (c_implicitnull c) v);
    unfield (base_ty (c_ty c)) (hashable (coerce v))].
 
-Definition col_agrees (c : column) (v : goval) : bool :=
-  forallb (fun d => negb (representable c d) || Bool.eqb (col_M c v d) (col_W c v d)) (col_cands c v).
+(** The row tester of the repaired batch function on one column (C10-fix-2, see Sql/Model.v), and the
+    repaired matcher: a row is handed over when the matcher and the tester both accept it. *)
+Definition col_T (c : column) (v : goval) (d : dval) : bool :=
+  dval_eqb (valuer (c_implicitnull c) v) (valuer (c_implicitnull c) (field_value (c_ty c) d)).
+Definition col_Mf (c : column) (v : goval) (d : dval) : bool := col_M c v d && col_T c v d.
+
+(** The definitions below take the per-column matcher predicate [MX] as a parameter: [col_M] for the code as it
+    is, [col_Mf] for the repaired code. *)
+Definition col_agrees_g (MX : column -> goval -> dval -> bool) (c : column) (v : goval) : bool :=
+  forallb (fun d => negb (representable c d) || Bool.eqb (MX c v d) (col_W c v d)) (col_cands c v).
 Definition col_w_empty (c : column) (v : goval) : bool :=
   forallb (fun d => negb (representable c d && col_W c v d)) (col_cands c v).
-Definition col_m_empty (c : column) (v : goval) : bool :=
-  forallb (fun d => negb (representable c d && col_M c v d)) (col_cands c v).
+Definition col_m_empty_g (MX : column -> goval -> dval -> bool) (c : column) (v : goval) : bool :=
+  forallb (fun d => negb (representable c d && MX c v d)) (col_cands c v).
 
 (** The filter value serializes to something MySQL compares with the column the way the model's [sql_eq]
     does: a number for a numeric column, text for a text / blob column, or NULL.  (A string against an
@@ -80,10 +88,13 @@ Definition filter_comparable (t : table) (f : filter) : bool :=
   forallb (on_col f true (fun c v => comparable c (valuer (c_implicitnull c) v))) (t_cols t).
 
 (** The weakest hypothesis of the transparency theorem. *)
-Definition filter_transparent (t : table) (f : filter) : bool :=
+Definition filter_transparent_g (MX : column -> goval -> dval -> bool) (t : table) (f : filter) : bool :=
   filter_comparable t f
-  && (forallb (on_col f true col_agrees) (t_cols t)
-      || (existsb (on_col f false col_w_empty) (t_cols t) && existsb (on_col f false col_m_empty) (t_cols t))).
+  && (forallb (on_col f true (col_agrees_g MX)) (t_cols t)
+      || (existsb (on_col f false col_w_empty) (t_cols t) && existsb (on_col f false (col_m_empty_g MX)) (t_cols t))).
+
+Definition filter_transparent : table -> filter -> bool := filter_transparent_g col_M.
+Definition filter_transparent_fixed : table -> filter -> bool := filter_transparent_g col_Mf.
 
 Fixpoint distinctb (l : list string) : bool :=
   match l with
@@ -117,5 +128,18 @@ Definition row_pick (P Q : column -> goval -> dval -> bool) (t : table) (f : fil
     transparent: the first is handed over by the matcher whenever it is fetched (an empty filter among the
     companions fetches it) although the caller's own query does not select it; the second is selected by the
     caller's own query and dropped by the matcher. *)
-Definition witness_rows (t : table) (f : filter) : list drow :=
-  [row_pick col_M col_W t f; row_pick col_W col_M t f].
+Definition witness_rows_g (MX : column -> goval -> dval -> bool) (t : table) (f : filter) : list drow :=
+  [row_pick MX col_W t f; row_pick col_W MX t f].
+Definition witness_rows : table -> filter -> list drow := witness_rows_g col_M.
+Definition witness_rows_fixed : table -> filter -> list drow := witness_rows_g col_Mf.
+
+(** One invocation of the batch function with the row-level matcher [mm] ([matcher_matches] /
+    [matcher_matches_fixed]). *)
+Definition batched_results_g (mm : table -> filter -> drow -> bool) (t : table) (fs : list filter) (contents : list drow)
+  : list (list drow) :=
+  let fetched := select_rows (batch_wclause t fs) contents in
+  map (fun f => List.filter (mm t f) fetched) fs.
+
+Definition batched_by_arrival_g (mm : table -> filter -> drow -> bool) (t : table) (fs : list filter)
+           (arrival : list (list nat)) (contents : list drow) : list (nat * list drow) :=
+  List.concat (map (fun b => combine b (batched_results_g mm t (map (nth_filter fs) b) contents)) arrival).
